@@ -297,11 +297,9 @@ func (e *Exec) callFunc(fv *FuncV, args []Value, site string) Value {
 		}
 		return in(e, fn, args)
 	}
+	e.W.ensureBuilt(fn)
 	if fn.Blocks == nil {
-		e.W.ensureBuilt(fn)
-		if fn.Blocks == nil {
-			e.ooe("call to function without body: %s", name)
-		}
+		e.ooe("call to function without body: %s", name)
 	}
 	if e.depth > maxDepth {
 		e.abort("bound-exceeded", "call depth > %d at %s", maxDepth, name)
